@@ -152,6 +152,7 @@ def check(prop, tier, runs=None, workers=None, wall=None):
     mod = runner.engine_module(engine)
     pristine = runner.preload()
     master = int(os.environ.get("VERIF_SEED", "0"))
+    os.environ["VERIF_TIER_ACTIVE"] = tier  # some deeper bounds are explored in the thorough tier only
     d_runs, d_workers, d_wall = TIERS[engine][tier]
     runs = runs or d_runs
     workers = workers or d_workers
